@@ -384,4 +384,68 @@ theorem roundtrip (d : Defs) : ∀ (n : Nat) (t : Ty) (v : Val) (es rest : List 
         · cases henc
     · exact absurd hwt (by simp)
 
+theorem concatRes_map_total {α : Type} (g : α → Res (List Event)) :
+    ∀ (l : List α), (∀ x ∈ l, ∃ c, g x = .ok c) → ∃ es, concatRes (l.map g) = .ok es := by
+  intro l
+  induction l with
+  | nil => intro _; exact ⟨[], rfl⟩
+  | cons x t ih =>
+    intro h
+    obtain ⟨c, hc⟩ := h x (by simp)
+    obtain ⟨es, hes⟩ := ih (fun y hy => h y (by simp [hy]))
+    exact ⟨c ++ es, by simp [concatRes, hc, hes]⟩
+
+/-- The emitted writer succeeds on every well-typed value. -/
+theorem enc_total (d : Defs) : ∀ (n : Nat) (t : Ty) (v : Val), WT d n t v → ∃ es, encV d n t v = .ok es := by
+  intro n
+  induction n with
+  | zero => intro t v h; simp [WT] at h
+  | succ n ih =>
+    intro t v hwt
+    unfold WT at hwt
+    unfold encV
+    split at hwt
+    all_goals (rename_i hres; simp only [hres])
+    all_goals (try (exact ⟨_, rfl⟩))
+    · rename_i a vs
+      obtain ⟨es, hes⟩ := concatRes_map_total (encV d n a) vs (fun x hx => ih a x (hwt x hx))
+      exact ⟨_, by rw [hes]⟩
+    · rename_i a vs
+      obtain ⟨es, hes⟩ := concatRes_map_total (encV d n a) vs (fun x hx => ih a x (hwt x hx))
+      exact ⟨_, by rw [hes]⟩
+    · rename_i kt vt kvs
+      obtain ⟨es, hes⟩ := concatRes_map_total (fun kv : Val × Val => concatRes [encV d n kt kv.1, encV d n vt kv.2]) kvs
+        (fun kv hkv => by
+          obtain ⟨ck, hck⟩ := ih kt kv.1 (hwt kv hkv).1
+          obtain ⟨cv, hcv⟩ := ih vt kv.2 (hwt kv hkv).2
+          exact ⟨ck ++ (cv ++ []), by simp [concatRes, hck, hcv]⟩)
+      exact ⟨_, by rw [hes]⟩
+    · rename_i nm fs
+      obtain ⟨sd, hsd, hnd, hcanon, hun, hreq, hfields⟩ := hwt
+      simp only [hsd]
+      have hnb : ¬ (sd.kind = .union ∧ (sd.fields.filter fun f => (lookupVal fs f.id).isSome).length ≠ 1) := by
+        intro ⟨hk, hne⟩; exact hne (hun hk)
+      rw [if_neg hnb]
+      obtain ⟨es, hes⟩ := concatRes_map_total (fieldEvents d (encV d n) sd fs) sd.fields (by
+        intro f hf
+        unfold fieldEvents
+        cases hl : lookupVal fs f.id with
+        | some x =>
+          obtain ⟨c, hc⟩ := ih f.ty x (hfields f hf x hl)
+          exact ⟨[.fb f.name (wireOf d f.ty) f.id] ++ c ++ [.fe], by simp only [hc]⟩
+        | none =>
+          have : f.req = .optional ∨ sd.kind = .union := by
+            cases hr : f.req with
+            | optional => exact Or.inl rfl
+            | required | default =>
+              right
+              cases hk : sd.kind with
+              | union => rfl
+              | struct | exception =>
+                have := hreq f hf (by rw [hr]; intro h; cases h) (by rw [hk]; intro h; cases h)
+                rw [hl] at this; cases this
+          exact ⟨[], by simp only [if_pos this]⟩)
+      exact ⟨_, by rw [hes]⟩
+    · exact absurd hwt (by simp)
+
 end FV.Thrift
